@@ -35,6 +35,7 @@ import (
 	"go.sia.tech/core/types"
 	"go.sia.tech/coreutils/chain"
 	"go.sia.tech/coreutils/syncer"
+	"verifharness/chainx"
 	"verifharness/netx"
 	"verifharness/vh"
 )
@@ -91,6 +92,11 @@ type spec struct {
 	// oldStore: these nodes run on a database written by the previous release (their v2 blocks above
 	// the require height are stored in the previous record layout) and reopened
 	oldStore []int
+	// flushFail: the store of these nodes fails one Flush (the first one that has something to write
+	// after the node has been started on its chain: the end of the reorg onto what it receives).
+	// The failed reorg is rolled back, the serving peer dropped; the harness re-dials dropped links.
+	// The node must still end on the heaviest chain when the same blocks are delivered again.
+	flushFail []int
 }
 
 func edgesOf(topo string, n int) [][2]int {
@@ -301,6 +307,13 @@ func coreSpecs() []spec {
 	add(spec{name: "core-oldstore-heaviest-star", mainLen: 18, branches: []branch{m(12), m(18), m(15), f(11, 3, 2*time.Second)}, topo: "star", oldStore: []int{1, 3}, flip: []bool{true, false, true}})
 	add(spec{name: "core-oldstore-behind", mainLen: 26, branches: []branch{m(16), m(26)}, topo: "line", oldStore: []int{0}})
 	add(spec{name: "core-oldstore-must-reorg", mainLen: 26, branches: []branch{f(13, 6, 2*time.Second), m(26), m(14)}, topo: "ring", oldStore: []int{0, 2}})
+	// a node whose store fails one Flush, at the end of the reorg onto the chain it receives: the
+	// reorg is rolled back (the whole branch stays stored, with supplements), the same blocks are
+	// delivered again. Fork below the require height (AddBlocks), plain extension, fork above it
+	add(spec{name: "core-flushfail-lighter-fork-v1", mainLen: 20, branches: []branch{f(3, 5, 2*time.Second), m(20)}, topo: "line", flushFail: []int{0}})
+	add(spec{name: "core-flushfail-behind-v1", mainLen: 9, branches: []branch{m(9), m(2), m(4)}, topo: "line", flushFail: []int{1, 2}})
+	add(spec{name: "core-flushfail-across", mainLen: 18, branches: []branch{m(18), f(7, 4, 2*time.Second), f(2, 3, 2*time.Second)}, topo: "star", flushFail: []int{1, 2}})
+	add(spec{name: "core-flushfail-fork-v2", mainLen: 24, branches: []branch{f(13, 3, 2*time.Second), m(24)}, topo: "line", flushFail: []int{0}, flip: []bool{true}})
 	// small request sizes (every node started with the same WithMaxSendBlocks)
 	add(spec{name: "core-sendcap-3", mainLen: 16, branches: []branch{m(16), m(2), f(9, 4, 2*time.Second)}, topo: "line", sendCap: 3})
 	add(spec{name: "core-sendcap-1", mainLen: 14, branches: []branch{f(3, 5, 2*time.Second), m(14)}, topo: "line", sendCap: 1})
@@ -392,6 +405,10 @@ func randomSpec(rng *vh.RNG, i int) spec {
 		if rng.Bool() {
 			s.oldStore = append(s.oldStore, rng.Intn(n))
 		}
+	}
+	if s.bootstrap < 0 && len(s.oldStore) == 0 && len(s.lateEdges) == 0 && len(s.late) == 0 && rng.Chance(1, 6) {
+		// one node's store fails one Flush
+		s.flushFail = []int{rng.Intn(n)}
 	}
 	// staged specs: sometimes with a short connect timeout that passes before the second stage
 	if (len(s.lateEdges) > 0 || len(s.late) > 0) && rng.Chance(2, 5) {
@@ -638,6 +655,16 @@ func runSpec(s spec, ip string) *vh.Case {
 			isOld[i] = true
 		}
 	}
+	isFlaky := map[int]bool{}
+	for _, i := range s.flushFail {
+		if i != s.bootstrap && !isOld[i] {
+			isFlaky[i] = true
+		}
+	}
+	probes := make([]*chainx.ProbeStore, n)
+	if len(isFlaky) > 0 {
+		c.Tags = append(c.Tags, "store:one-flush-fails")
+	}
 	oldRecords := 0
 	nodes := make([]*nodeRec, n)
 	for i := range chains {
@@ -660,6 +687,10 @@ func runSpec(s spec, ip string) *vh.Case {
 				}
 			}
 			base = main.Blocks[:s.bootAt]
+		} else if isFlaky[i] {
+			nd, probes[i] = nt.NewFlushFaultNode(fmt.Sprintf("%s.%d", ip, i+1), opts...)
+			nd.Load(chains[i])
+			probes[i].FailNextFlush()
 		} else if isOld[i] {
 			var k int
 			var err error
@@ -835,6 +866,35 @@ func runSpec(s spec, ip string) *vh.Case {
 		}(nr.n)
 	}
 
+	if len(isFlaky) > 0 {
+		// a node whose reorg failed drops the peer that served the blocks: re-dial what is missing
+		awg.Add(1)
+		go func() {
+			defer awg.Done()
+			t := time.NewTicker(300 * time.Millisecond)
+			defer t.Stop()
+			for {
+				select {
+				case <-stop:
+					return
+				case <-t.C:
+					for k, e := range es {
+						if len(nodes[e[0]].n.S.Peers()) >= degree[e[0]] && len(nodes[e[1]].n.S.Peers()) >= degree[e[1]] {
+							continue
+						}
+						a, b := e[0], e[1]
+						if k < len(s.flip) && s.flip[k] {
+							a, b = b, a
+						}
+						ctx, cancel := context.WithTimeout(context.Background(), 2*time.Second)
+						nodes[a].n.S.Connect(ctx, nodes[b].n.Addr()) // "already connected" for the links that are up
+						cancel()
+					}
+				}
+			}
+		}()
+	}
+
 	curTips := func() []int {
 		out := make([]int, n)
 		for i, nr := range nodes {
@@ -902,8 +962,17 @@ func runSpec(s spec, ip string) *vh.Case {
 		}
 		return ""
 	}
-	if !netx.WaitFor(3*time.Second, func() bool { return lost() == "" }) {
+	if len(isFlaky) == 0 && !netx.WaitFor(3*time.Second, func() bool { return lost() == "" }) {
 		c.Oracle("peer-lost-without-cause", "%s", lost())
+	}
+	flushFailed := false
+	for _, p := range probes {
+		if p != nil && p.DisarmFlush() {
+			flushFailed = true
+		}
+	}
+	if flushFailed {
+		c.Tags = append(c.Tags, "store:flush-failed")
 	}
 	close(stop)
 	awg.Wait()
@@ -941,7 +1010,23 @@ func runSpec(s spec, ip string) *vh.Case {
 	}
 	for i, nr := range nodes {
 		// every node is honest: nobody may be reported for banning
-		if bans := nr.n.Store.Bans(); len(bans) > 0 {
+		bans := nr.n.Store.Bans()
+		if isFlaky[i] {
+			// the syncer reports the peer that served the blocks whenever the manager returns an error,
+			// also when the error is the node's own store failing: not held against the node here
+			kept := bans[:0]
+			for _, b := range bans {
+				if strings.Contains(b.Reason, "injected flush failure") {
+					if t := "local-store-failure:serving-peer-reported"; !strings.Contains(strings.Join(c.Tags, " "), t) {
+						c.Tags = append(c.Tags, t)
+					}
+				} else {
+					kept = append(kept, b)
+				}
+			}
+			bans = kept
+		}
+		if len(bans) > 0 {
 			c.Oracle("honest-peer-banned", "node %d reported an honest peer to its peer store: %v", i, bans)
 		}
 		if msg := auditNode(nr); msg != "" {
